@@ -9,6 +9,13 @@ package c06
 // displaced regions are removed and the region is saved when its meta changed; a write
 // that the injector failed is not applied. Storage must equal M after every step, so
 // storage == cache except for the records whose last write failed.
+//
+// With the region storage switched on (rs_test.go) "storage" is the leveldb handle and
+// the model has a second part, the unflushed batch B: a delete removes the record from
+// M only, a save goes to B, a flush (explicit, Close, or the 100th save since the last
+// one) moves B into M. Storage must equal M after every step; the latest acknowledged
+// write (B, else M) of every served region is its meta; after a flush + load round
+// (cold restart; epilogue of every such case) storage == cache without overlaps.
 
 import (
 	"fmt"
@@ -25,13 +32,17 @@ const regionPrefix = "raft/r/"
 func regionKey(id uint64) string { return fmt.Sprintf("%s%020d", regionPrefix, id) }
 
 // kvDump reads every persisted region meta (keys raft/r/<id>): the key list straight from
-// the memory kv, the records back through the storage API (so that they are decrypted).
+// the backend SaveRegion uses under the configuration (rawRegions: the memory kv, or the
+// leveldb handle), the records back through the storage API (so that they are decrypted).
 // The raw records are examined on the way: with encryption at rest every record carries
 // an encryption meta (together with "reads back as the served meta" this means the stored
 // keys are the cipher text, not the plain keys); without, none does and the raw bytes are
 // the marshalled meta.
 func (f *fixture) kvDump() (map[string]string, error) {
-	keys, vals, err := f.mem.LoadRange(regionPrefix, "raft/r0", 0)
+	if err := f.otherBackendClean(); err != nil {
+		return nil, err
+	}
+	keys, vals, err := f.rawRegions()
 	if err != nil {
 		return nil, err
 	}
@@ -81,8 +92,8 @@ func sortedKeys(m map[string]string) []string {
 	return ks
 }
 
-// storageIs compares storage with the model; lag = keys whose last write failed.
-func (f *fixture) storageIs(model, dump map[string]string, cache []entry, lag map[string]string) error {
+// modelIs compares storage with the model.
+func modelIs(model, dump map[string]string, cache []entry) error {
 	for _, k := range sortedKeys(model) {
 		v, ok := dump[k]
 		if !ok {
@@ -99,6 +110,14 @@ func (f *fixture) storageIs(model, dump map[string]string, cache []entry, lag ma
 			}
 			return fmt.Errorf("storage holds %s under %s, expected nothing", descMeta(dump[k]), strings.TrimPrefix(k, regionPrefix))
 		}
+	}
+	return nil
+}
+
+// storageIs compares storage with the model and with the cache; lag = keys whose last write failed.
+func (f *fixture) storageIs(model, dump map[string]string, cache []entry, lag map[string]string) error {
+	if err := modelIs(model, dump, cache); err != nil {
+		return err
 	}
 	// storage == cache except for the records whose last write failed
 	for _, e := range cache {
